@@ -197,6 +197,99 @@ theorem blockNode_key (fuel n : Nat) (seqAt : Option Nat) (i : Nat) {k h : List 
   simp [this]
   rfl
 
+/-! ### explicit keys `? key` / `: value` -/
+
+theorem classify_question {h : List Char} (hh : ItemHead h) : classify ('?' :: ' ' :: h) = .question h 1 := by
+  obtain ⟨c, cs, rfl⟩ : ∃ c cs, h = c :: cs := by
+    cases h with
+    | nil => exact absurd rfl hh.ne
+    | cons c cs => exact ⟨c, cs, rfl⟩
+  have hc : c ≠ ' ' := by
+    intro e; exact hh.noSpace (by simp [e])
+  simp [classify, dropSpaces, hc]
+
+/-- a block node whose first line starts with `? ` is the block mapping at that indentation -/
+theorem blockNode_question (fuel n : Nat) (seqAt : Option Nat) (i : Nat) {h : List Char} (ls : List Line)
+    (hh : ItemHead h) (hi : n ≤ i) :
+    blockNode (fuel + 1) n seqAt false (⟨i, '?' :: ' ' :: h⟩ :: ls) =
+      (match blockMap fuel i (⟨i, '?' :: ' ' :: h⟩ :: ls) with
+       | some (es, r) => if hasDupKey es then none else some (.map es, r)
+       | none => none) := by
+  have hns : (⟨i, '?' :: ' ' :: h⟩ : Line).isSkippable = false := notSkippable_of_head (by decide)
+  have hlt : ¬ (i < n) := by omega
+  rw [blockNode, skipBlank_cons ls hns]
+  simp [classify_question hh, hlt]
+  rfl
+
+/-- an entry `? key` / `: value` of a block mapping: the key is the block node after `? `, the value
+the block node after `: ` -/
+theorem blockMap_cons_complex (fuel c : Nat) {hk hv : List Char} (ls r2 : List Line) (hhk : ItemHead hk) (hhv : ItemHead hv)
+    {kv : PVal} (hkey : blockNode fuel (c + 1) none false (⟨c + 2, hk⟩ :: ls) = some (kv, ⟨c, ':' :: ' ' :: hv⟩ :: r2)) :
+    blockMap (fuel + 1) c (⟨c, '?' :: ' ' :: hk⟩ :: ls) =
+      (match blockNode fuel (c + 1) (some c) false (⟨c + 2, hv⟩ :: r2) with
+       | none => none
+       | some (v, r3) => (blockMap fuel c r3).map fun (es, r) => ((kv, v) :: es, r)) := by
+  have hns : (⟨c, '?' :: ' ' :: hk⟩ : Line).isSkippable = false := notSkippable_of_head (by decide)
+  have hns2 : (⟨c, ':' :: ' ' :: hv⟩ : Line).isSkippable = false := notSkippable_of_head (by decide)
+  have hne : hk.isEmpty = false := by
+    cases hk with
+    | nil => exact absurd rfl hhk.ne
+    | cons _ _ => rfl
+  obtain ⟨cv, csv, rfl⟩ : ∃ c cs, hv = c :: cs := by
+    cases hv with
+    | nil => exact absurd rfl hhv.ne
+    | cons c cs => exact ⟨c, cs, rfl⟩
+  have hcv : cv ≠ ' ' := by
+    intro e; exact hhv.noSpace (by simp [e])
+  rw [blockMap, skipBlank_cons ls hns]
+  simp only [bne_self_eq_false, Bool.false_eq_true, if_false, classify_question hhk, hne, hkey, skipBlank_cons r2 hns2]
+  simp [dropSpaces, restColumn, hcv]
+  rfl
+
+/-! ### what may follow a block sequence / the value of a key at column `c` -/
+
+/-- nothing, or a non-blank line indented less than `c`, or a line at column `c` that is not a sequence entry -/
+def SeqEnd (c : Nat) (rest : List Line) : Prop :=
+  rest = [] ∨ ∃ l ls, rest = l :: ls ∧ l.isSkippable = false ∧
+    (l.indent < c ∨ (l.indent = c ∧ ∀ it g, classify l.text ≠ .dash it g))
+
+theorem DedLt.seqEnd {c : Nat} {rest : List Line} (h : DedLt c rest) : SeqEnd c rest := by
+  rcases h with rfl | ⟨l, ls, rfl, hi, hs⟩
+  · exact Or.inl rfl
+  · exact Or.inr ⟨l, ls, rfl, hs, Or.inl hi⟩
+
+theorem SeqEnd.ded {c : Nat} {rest : List Line} (h : SeqEnd c rest) : DedLt (c + 1) rest := by
+  rcases h with rfl | ⟨l, ls, rfl, hs, hi⟩
+  · exact Or.inl rfl
+  · exact Or.inr ⟨l, ls, rfl, by rcases hi with h | ⟨h, _⟩ <;> omega, hs⟩
+
+theorem SeqEnd.mono {c c' : Nat} {rest : List Line} (h : SeqEnd c rest) (hc : c < c') : SeqEnd c' rest :=
+  (h.ded.mono (by omega)).seqEnd
+
+theorem skipBlank_seqEnd {c : Nat} {rest : List Line} (h : SeqEnd c rest) : skipBlank rest = rest := skipBlank_ded h.ded
+
+theorem blockSeq_end' (fuel c : Nat) {rest : List Line} (h : SeqEnd c rest) :
+    blockSeq (fuel + 1) c rest = some ([], rest) := by
+  rw [blockSeq, skipBlank_seqEnd h]
+  rcases h with rfl | ⟨l, ls, rfl, hs, hi | ⟨hi, hnd⟩⟩
+  · rfl
+  · have h1 : (l.indent != c) = true := by simp; omega
+    have h2 : ¬ (l.indent > c) := by omega
+    simp [h1, h2]
+  · have h1 : (l.indent != c) = false := by simp [hi]
+    cases hcl : classify l.text with
+    | dash it g => exact absurd hcl (hnd it g)
+    | question _ _ => simp [h1, hcl]
+    | other => simp [h1, hcl]
+
+/-- a block sequence at the column `c` of its key (`compact_list_indent`): accepted as the value of the key -/
+theorem blockNode_dash_at (fuel c : Nat) {h : List Char} (ls : List Line) (hh : ItemHead h) :
+    blockNode (fuel + 1) (c + 1) (some c) false (⟨c, '-' :: ' ' :: h⟩ :: ls) =
+      (blockSeq fuel c (⟨c, '-' :: ' ' :: h⟩ :: ls)).map fun (xs, r) => (.seq xs, r) := by
+  have hns : (⟨c, '-' :: ' ' :: h⟩ : Line).isSkippable = false := notSkippable_of_head (by decide)
+  rw [blockNode, skipBlank_cons ls hns]
+  simp [classify_dash hh]
+
 /-! ### heads of the layout -/
 
 theorem PlainTok.itemHead {t : List Char} (h : PlainTok t) : ItemHead t := by
@@ -206,6 +299,10 @@ theorem PlainTok.itemHead {t : List Char} (h : PlainTok t) : ItemHead t := by
 theorem safe_key_itemHead {k : List Char} (hk : isSafeStr k = true) (after : List Char) : ItemHead (k ++ ':' :: after) := by
   obtain ⟨c, cs, rfl, hc, _, _⟩ := safe_cons hk
   exact ⟨by simp, by simp only [List.cons_append, List.head?_cons, ne_eq, Option.some.injEq]; rintro rfl; exact absurd hc (by decide)⟩
+
+theorem variantItem_head {n : List Char} (hn : isSafeStr n = true) (r : List Char × List Line × Bool) :
+    ItemHead (variantItem n r).1 := by
+  simpa [variantItem] using safe_key_itemHead hn r.1
 
 theorem leafTok_plainTok {w : Nat} {v : SVal} {tok : List Char} (hv : inFrag w v = true) (ht : leafTok v = some tok) :
     PlainTok tok := by
@@ -219,7 +316,16 @@ theorem leafTok_plainTok {w : Nat} {v : SVal} {tok : List Char} (hv : inFrag w v
   · subst ht; exact plainTok_null
   · subst ht; simp only [inFrag, Bool.and_eq_true] at hv; exact safe_plainTok hv.1
 
-theorem itemHead_layItem {w : Nat} : ∀ (v : SVal), inFrag w v = true → ∀ (d : Nat) (lvb : Bool), ItemHead (layItem d lvb v).1
+theorem keyOf_complex' : ∀ (k : SVal), isComplexKey k = true → keyOf k = none := by
+  intro k h
+  cases k <;> first | rfl | (simp [isComplexKey] at h)
+
+theorem laySeqItem_head (k : Nat) (cp : Bool) (d : Nat) (lvb : Bool) (xs : List SVal) : ItemHead (laySeqItem k cp d lvb xs).1 := by
+  cases xs <;> simp only [laySeqItem]
+  · exact ⟨by decide, by decide⟩
+  · exact ⟨by simp, by simp⟩
+
+theorem itemHead_layItem {w : Nat} (k : Nat) (cp : Bool) : ∀ (v : SVal), inFrag w v = true → ∀ (d : Nat) (lvb : Bool), ItemHead (layItem k cp d lvb v).1
   | .unit, _, d, lvb => by simpa [layItem] using plainTok_null.itemHead
   | .none, _, d, lvb => by simpa [layItem] using plainTok_null.itemHead
   | .bool b, _, d, lvb => by cases b <;> simpa [layItem] using (by first | exact plainTok_true.itemHead | exact plainTok_false.itemHead)
@@ -230,32 +336,33 @@ theorem itemHead_layItem {w : Nat} : ∀ (v : SVal), inFrag w v = true → ∀ (
   | .unitVariant e n, hv, d, lvb => by
     simp only [inFrag, Bool.and_eq_true] at hv
     simpa [layItem] using (safe_plainTok hv.1).itemHead
-  | .some v, hv, d, lvb => by simp only [inFrag] at hv; simpa [layItem] using itemHead_layItem v hv d lvb
-  | .newtypeStruct v, hv, d, lvb => by simp only [inFrag] at hv; simpa [layItem] using itemHead_layItem v hv d lvb
+  | .some v, hv, d, lvb => by simp only [inFrag] at hv; simpa [layItem] using itemHead_layItem k cp v hv d lvb
+  | .newtypeStruct v, hv, d, lvb => by simp only [inFrag] at hv; simpa [layItem] using itemHead_layItem k cp v hv d lvb
   | .newtypeVariant n v, hv, d, lvb => by
     simp only [inFrag, Bool.and_eq_true] at hv
-    simpa [layItem] using safe_key_itemHead hv.1 _
-  | .seq xs, _, d, lvb => by
-    cases xs <;> simp only [layItem, laySeqItem]
-    · exact ⟨by decide, by decide⟩
-    · exact ⟨by simp, by simp⟩
-  | .tuple xs, _, d, lvb => by
-    cases xs <;> simp only [layItem, laySeqItem]
-    · exact ⟨by decide, by decide⟩
-    · exact ⟨by simp, by simp⟩
+    simp only [layItem]; exact variantItem_head hv.1 _
+  | .tupleVariant n xs, hv, d, lvb => by
+    simp only [inFrag, Bool.and_eq_true] at hv
+    simp only [layItem]; exact variantItem_head hv.1 _
+  | .structVariant n fs, hv, d, lvb => by
+    simp only [inFrag, Bool.and_eq_true] at hv
+    simp only [layItem]; exact variantItem_head hv.1 _
+  | .seq xs, _, d, lvb => by simp only [layItem]; exact laySeqItem_head k cp d lvb xs
+  | .tuple xs, _, d, lvb => by simp only [layItem]; exact laySeqItem_head k cp d lvb xs
+  | .tupleStruct xs, _, d, lvb => by simp only [layItem]; exact laySeqItem_head k cp d lvb xs
   | .map known es, hv, d, lvb => by
     simp only [inFrag, Bool.and_eq_true] at hv
     cases es with
     | nil => simp only [layItem, layMapItem]; exact ⟨by decide, by decide⟩
     | cons e es' =>
-      obtain ⟨k, v⟩ := e
-      cases k <;> simp only [inFragEntries, Bool.and_eq_true, Bool.false_and, Bool.false_eq_true, false_and] at hv
-      rename_i kt
-      simp only [layItem, layMapItem, keyOf, Option.getD_some, List.append_assoc, List.singleton_append]
-      exact safe_key_itemHead hv.1.1.1 _
-  | .tupleStruct _, hv, _, _ => by simp [inFrag] at hv
-  | .tupleVariant _ _, hv, _, _ => by simp [inFrag] at hv
-  | .structVariant _ _, hv, _, _ => by simp [inFrag] at hv
+      obtain ⟨kk, v⟩ := e
+      simp only [inFragEntries, Bool.and_eq_true, Bool.or_eq_true] at hv
+      rcases hv.1.1.1 with hsk | hck
+      · obtain ⟨kt, rfl, hkt⟩ := isSafeKey_iff hsk
+        simp only [layItem, layMapItem, keyOf, List.append_assoc, List.singleton_append]
+        exact safe_key_itemHead hkt _
+      · simp only [layItem, layMapItem, keyOf_complex' kk hck.1]
+        exact ⟨by simp, by simp⟩
   | .flowSeq _, hv, _, _ => by simp [inFrag] at hv
   | .flowMap _, hv, _, _ => by simp [inFrag] at hv
   | .commented _ _, hv, _, _ => by simp [inFrag] at hv
@@ -265,7 +372,19 @@ theorem itemHead_layItem {w : Nat} : ∀ (v : SVal), inFrag w v = true → ∀ (
 
 theorem valHead_tok {t : List Char} (h : PlainTok t) : ValHead (' ' :: t) := Or.inr ⟨t, rfl, h.itemHead⟩
 
-theorem valHead_layVal {w : Nat} : ∀ (v : SVal), inFrag w v = true → ∀ (m : Nat) (lvb : Bool), ValHead (layVal m lvb v).1
+theorem seqValOf_head (e : Bool) (items : List Line) : ValHead (seqValOf e items).1 := by
+  cases e <;> simp only [seqValOf, if_true, if_false, Bool.false_eq_true]
+  · exact Or.inl rfl
+  · exact Or.inr ⟨_, rfl, ⟨by decide, by decide⟩⟩
+
+theorem mapValOf_head (m : Nat) (lvb e : Bool) (entries : List Line) : ValHead (mapValOf m lvb e entries).1 := by
+  cases e <;> cases lvb <;> simp only [mapValOf, if_true, if_false, Bool.false_eq_true]
+  · exact Or.inl rfl
+  · exact Or.inl rfl
+  · exact Or.inr ⟨_, rfl, ⟨by decide, by decide⟩⟩
+  · exact Or.inl rfl
+
+theorem valHead_layVal {w : Nat} (k : Nat) (cp im : Bool) : ∀ (v : SVal), inFrag w v = true → ∀ (m : Nat) (lvb : Bool), ValHead (layVal k cp im m lvb v).1
   | .unit, _, m, lvb => by simpa [layVal] using valHead_tok plainTok_null
   | .none, _, m, lvb => by simpa [layVal] using valHead_tok plainTok_null
   | .bool b, _, m, lvb => by cases b <;> simpa [layVal] using (by first | exact valHead_tok plainTok_true | exact valHead_tok plainTok_false)
@@ -276,30 +395,15 @@ theorem valHead_layVal {w : Nat} : ∀ (v : SVal), inFrag w v = true → ∀ (m 
   | .unitVariant e n, hv, m, lvb => by
     simp only [inFrag, Bool.and_eq_true] at hv
     simpa [layVal] using valHead_tok (safe_plainTok hv.1)
-  | .some v, hv, m, lvb => by simp only [inFrag] at hv; simpa [layVal] using valHead_layVal v hv m lvb
-  | .newtypeStruct v, hv, m, lvb => by simp only [inFrag] at hv; simpa [layVal] using valHead_layVal v hv m lvb
-  | .newtypeVariant n v, _, m, lvb => by simp only [layVal]; exact Or.inl rfl
-  | .seq xs, _, m, lvb => by
-    cases xs <;> cases lvb <;> simp only [layVal, seqValOf, List.isEmpty_nil, List.isEmpty_cons, if_true, if_false, Bool.false_eq_true]
-    · exact Or.inr ⟨_, rfl, ⟨by decide, by decide⟩⟩
-    · exact Or.inl rfl
-    · exact Or.inl rfl
-    · exact Or.inl rfl
-  | .tuple xs, _, m, lvb => by
-    cases xs <;> cases lvb <;> simp only [layVal, seqValOf, List.isEmpty_nil, List.isEmpty_cons, if_true, if_false, Bool.false_eq_true]
-    · exact Or.inr ⟨_, rfl, ⟨by decide, by decide⟩⟩
-    · exact Or.inl rfl
-    · exact Or.inl rfl
-    · exact Or.inl rfl
-  | .map known es, _, m, lvb => by
-    cases es <;> cases lvb <;> simp only [layVal, List.isEmpty_nil, List.isEmpty_cons, if_true, if_false, Bool.false_eq_true]
-    · exact Or.inr ⟨_, rfl, ⟨by decide, by decide⟩⟩
-    · exact Or.inl rfl
-    · exact Or.inl rfl
-    · exact Or.inl rfl
-  | .tupleStruct _, hv, _, _ => by simp [inFrag] at hv
-  | .tupleVariant _ _, hv, _, _ => by simp [inFrag] at hv
-  | .structVariant _ _, hv, _, _ => by simp [inFrag] at hv
+  | .some v, hv, m, lvb => by simp only [inFrag] at hv; simpa [layVal] using valHead_layVal k cp im v hv m lvb
+  | .newtypeStruct v, hv, m, lvb => by simp only [inFrag] at hv; simpa [layVal] using valHead_layVal k cp im v hv m lvb
+  | .newtypeVariant n v, _, m, lvb => by simp only [layVal, variantVal]; exact Or.inl rfl
+  | .tupleVariant n xs, _, m, lvb => by simp only [layVal, variantVal]; exact Or.inl rfl
+  | .structVariant n fs, _, m, lvb => by simp only [layVal, variantVal]; exact Or.inl rfl
+  | .seq xs, _, m, lvb => by simp only [layVal]; exact seqValOf_head _ _
+  | .tuple xs, _, m, lvb => by simp only [layVal]; exact seqValOf_head _ _
+  | .tupleStruct xs, _, m, lvb => by simp only [layVal]; exact seqValOf_head _ _
+  | .map known es, _, m, lvb => by simp only [layVal]; exact mapValOf_head _ _ _ _
   | .flowSeq _, hv, _, _ => by simp [inFrag] at hv
   | .flowMap _, hv, _, _ => by simp [inFrag] at hv
   | .commented _ _, hv, _, _ => by simp [inFrag] at hv
@@ -336,340 +440,436 @@ theorem valueParse_emptyMap (fuel c klen : Nat) (rest : List Line) :
   simp only [valueParse, hds]
   exact blockNode_emptyMap fuel (c + 1) none true _ rest (by simp [restColumn])
 
-/-- distinct string keys: the reader's duplicate-key check passes -/
-theorem hasDupKey_erase {w : Nat} : ∀ (es : List (SVal × SVal)), inFragEntries w es = true → (keysOf es).Nodup →
-    hasDupKey (eraseEntries es) = false
-  | [], _, _ => rfl
-  | (k, v) :: es, hv, hn => by
-    cases k <;> simp only [inFragEntries, Bool.and_eq_true, Bool.false_and, Bool.false_eq_true, false_and] at hv
-    rename_i kt
-    simp only [keysOf, List.nodup_cons] at hn
-    simp only [eraseEntries, erase, hasDupKey, Bool.or_eq_false_iff]
-    refine ⟨?_, hasDupKey_erase es hv.2 hn.2⟩
-    rw [List.any_eq_false]
-    intro e he
-    -- every key of `es` is a string different from `kt`
-    have : ∀ (es : List (SVal × SVal)), inFragEntries w es = true → kt ∉ keysOf es →
-        ∀ e ∈ eraseEntries es, ¬ (e.1 == PVal.str kt) = true := by
-      intro es
-      induction es with
-      | nil => intro _ _ e he; simp [eraseEntries] at he
-      | cons p ps ih =>
-        obtain ⟨k', v'⟩ := p
-        intro hv' hn' e he
-        cases k' <;> simp only [inFragEntries, Bool.and_eq_true, Bool.false_and, Bool.false_eq_true, false_and] at hv'
-        rename_i kt'
-        simp only [keysOf, List.mem_cons, not_or] at hn'
-        simp only [eraseEntries, erase, List.mem_cons] at he
-        rcases he with rfl | he
-        · show ¬ (PVal.beq (PVal.str kt') (PVal.str kt)) = true
-          simp only [PVal.beq, beq_iff_eq]
-          exact fun e => hn'.1 e.symm
-        · exact ih hv'.2 hn'.2 e he
-    exact this es hv.2 hn.1 e he
+/-! ### statements
+
+Positions are columns (`c`); `k` = `indent_step ≥ 1`. -/
+
+/-- the reader on a value right after `key:` (keys at column `c`): layout `r c lvb` reads as `p` -/
+def ReadsVal (r : Nat → Bool → Bool → List Char × List Line × Bool) (p : PVal) : Prop :=
+  ∀ (fuel c : Nat) (im lvb : Bool) (klen : Nat) (rest : List Line),
+    fuel ≥ 2 * ((r c im lvb).1.length + 1 + mu (r c im lvb).2.1) + 2 → SeqEnd c rest →
+    valueParse fuel c klen (r c im lvb).1 ((r c im lvb).2.1 ++ rest) = some (p, rest)
+
+/-- the reader on an item right after `- ` (dashes at column `c`) -/
+def ReadsItem (r : Nat → Bool → List Char × List Line × Bool) (p : PVal) : Prop :=
+  ∀ (fuel c : Nat) (seqAt : Option Nat) (lvb : Bool) (rest : List Line),
+    fuel ≥ 2 * ((r c lvb).1.length + 1 + mu (r c lvb).2.1) + 2 → DedLt (c + 1) rest →
+    blockNode fuel (c + 1) seqAt false (⟨c + 2, (r c lvb).1⟩ :: (r c lvb).2.1 ++ rest) = some (p, rest)
+
+/-- the items of a block sequence whose dashes are at column `c` -/
+def ReadsItems (k : Nat) (cp : Bool) (xs : List SVal) : Prop :=
+  ∀ (fuel c : Nat) (lvb : Bool) (rest : List Line),
+    fuel ≥ 2 * mu (layItems k cp c lvb xs).1 + 1 → SeqEnd c rest →
+    blockSeq fuel c ((layItems k cp c lvb xs).1 ++ rest) = some (eraseList xs, rest)
+
+/-- the entries of a block mapping whose keys are at column `c` -/
+def ReadsEntries (k : Nat) (cp : Bool) (es : List (SVal × SVal)) : Prop :=
+  ∀ (fuel c : Nat) (lvb : Bool) (rest : List Line),
+    fuel ≥ 2 * mu (layEntries k cp c lvb es).1 + 1 → DedLt c rest →
+    blockMap fuel c ((layEntries k cp c lvb es).1 ++ rest) = some (eraseEntries es, rest)
+
+/-! ### leaves -/
+
+theorem reads_leaf_val {tok : List Char} (ht : PlainTok tok) : ReadsVal (fun _ _ _ => (' ' :: tok, [], false)) (resolvePlain tok) := by
+  intro fuel c im lvb klen rest hfuel hd
+  obtain ⟨f', rfl⟩ : ∃ f', fuel = f' + 1 := ⟨fuel - 1, by omega⟩
+  simpa using valueParse_leaf f' c klen rest ht hd.ded
+
+theorem reads_leaf_item {tok : List Char} (ht : PlainTok tok) : ReadsItem (fun _ _ => (tok, [], false)) (resolvePlain tok) := by
+  intro fuel c seqAt lvb rest hfuel hd
+  obtain ⟨f', rfl⟩ : ∃ f', fuel = f' + 1 := ⟨fuel - 1, by omega⟩
+  simpa using blockNode_plain f' (c + 1) seqAt false (c + 2) rest ht (by omega) hd
+
+/-! ### sequences -/
+
+/-- a sequence right after `key:` -/
+theorem reads_seqVal {w k : Nat} {cp : Bool} (hk : k ≥ 1) {xs : List SVal} (hv : inFragList w xs = true) (hitems : ReadsItems k cp xs) :
+    ReadsVal (fun c im _ => seqValOf xs.isEmpty (layItems k cp (seqCol k cp im c) false xs).1) (.seq (eraseList xs)) := by
+  intro fuel c im lvb klen rest hfuel hd
+  cases xs with
+  | nil =>
+    obtain ⟨f', rfl⟩ : ∃ f', fuel = f' + 1 := ⟨fuel - 1, by omega⟩
+    simpa [seqValOf, eraseList] using valueParse_emptySeq f' c klen rest
+  | cons x xs' =>
+    have hx : inFrag w x = true := by simp only [inFragList, Bool.and_eq_true] at hv; exact hv.1
+    simp only [seqValOf, List.isEmpty_cons, Bool.false_eq_true, if_false, valueParse_block] at hfuel ⊢
+    obtain ⟨f', rfl⟩ : ∃ f', fuel = f' + 1 := ⟨fuel - 1, by omega⟩
+    by_cases hcp : (cp && im) = true
+    · -- `compact_list_indent`: the dashes at the column of the key
+      have hsc : seqCol k cp im c = c := by simp [seqCol, hcp]
+      rw [hsc] at hfuel ⊢
+      have hh := itemHead_layItem k cp x hx c false
+      have hi := hitems f' c false rest (by simp only [List.length_nil] at hfuel; omega) hd
+      simp only [layItems, List.cons_append, List.nil_append, List.append_assoc] at hi ⊢
+      rw [blockNode_dash_at f' c _ hh, hi]
+      rfl
+    · have hsc : seqCol k cp im c = c + k := by simp [seqCol, hcp]
+      rw [hsc] at hfuel ⊢
+      have hh := itemHead_layItem k cp x hx (c + k) false
+      have hi := hitems f' (c + k) false rest (by simp only [List.length_nil] at hfuel; omega)
+        (hd.mono (by omega))
+      simp only [layItems, List.cons_append, List.nil_append, List.append_assoc] at hi ⊢
+      rw [blockNode_dash f' (c + 1) _ (c + k) _ hh (by omega), hi]
+      rfl
+
+/-- a sequence right after `- ` -/
+theorem reads_seqItem {w k : Nat} {cp : Bool} {xs : List SVal} (hv : inFragList w xs = true) (hitems : ReadsItems k cp xs) :
+    ReadsItem (fun c lvb => laySeqItem k cp c lvb xs) (.seq (eraseList xs)) := by
+  intro fuel c seqAt lvb rest hfuel hd
+  cases xs with
+  | nil =>
+    obtain ⟨f', rfl⟩ : ∃ f', fuel = f' + 1 := ⟨fuel - 1, by omega⟩
+    simpa [laySeqItem, eraseList] using blockNode_emptySeq f' (c + 1) seqAt false (c + 2) rest (by omega)
+  | cons x xs' =>
+    have hx : inFrag w x = true := by simp only [inFragList, Bool.and_eq_true] at hv; exact hv.1
+    have hh := itemHead_layItem k cp x hx (c + 2) lvb
+    simp only [laySeqItem] at hfuel ⊢
+    obtain ⟨f', rfl⟩ : ∃ f', fuel = f' + 1 := ⟨fuel - 1, by omega⟩
+    have hi := hitems f' (c + 2) lvb rest
+      (by simp only [layItems, mu, mu_append, List.length_append, List.length_cons, List.length_nil] at hfuel ⊢; omega)
+      (hd.mono (by omega)).seqEnd
+    simp only [layItems, List.cons_append, List.nil_append] at hi
+    simp only [List.cons_append, List.nil_append, List.append_assoc]
+    rw [blockNode_dash f' (c + 1) seqAt (c + 2) _ hh (by omega)]
+    try simp only [List.append_assoc] at hi
+    rw [hi]
+    rfl
+
+theorem reads_items_nil {k : Nat} {cp : Bool} : ReadsItems k cp [] := by
+  intro fuel c lvb rest hfuel hd
+  obtain ⟨f', rfl⟩ : ∃ f', fuel = f' + 1 := ⟨fuel - 1, by omega⟩
+  simpa [layItems, eraseList] using blockSeq_end' f' c hd
+
+theorem reads_items_cons {w k : Nat} {cp : Bool} {x : SVal} {xs : List SVal} (hx : inFrag w x = true)
+    (h1 : ReadsItem (fun c lvb => layItem k cp c lvb x) (erase x)) (h2 : ReadsItems k cp xs) : ReadsItems k cp (x :: xs) := by
+  intro fuel c lvb rest hfuel hd
+  have hh := itemHead_layItem k cp x hx c lvb
+  simp only [layItems, mu, mu_append, List.length_append, List.length_cons, List.length_nil] at hfuel
+  obtain ⟨f', rfl⟩ : ∃ f', fuel = f' + 1 := ⟨fuel - 1, by omega⟩
+  have hrest : DedLt (c + 1) ((layItems k cp c (layItem k cp c lvb x).2.2 xs).1 ++ rest) := by
+    cases xs with
+    | nil => simpa [layItems] using hd.ded
+    | cons y ys =>
+      simp only [layItems, List.cons_append]
+      exact DedLt.cons _ _ (by simp) (notSkippable_of_head (by decide))
+  have h1 := h1 f' c none lvb ((layItems k cp c (layItem k cp c lvb x).2.2 xs).1 ++ rest) (by dsimp only; omega) hrest
+  have h2 := h2 f' c (layItem k cp c lvb x).2.2 rest (by omega) hd
+  simp only [layItems, List.cons_append, List.append_assoc, List.singleton_append, List.nil_append, eraseList]
+  simp only [List.cons_append, List.append_assoc] at h1
+  rw [blockSeq_cons f' c _ hh]
+  simp only [h1, h2]
+  rfl
+
+/-! ### mappings -/
+
+/-- the first line of a block mapping: `key:…` with a safe key, or `? …` -/
+inductive MapStart : List Char → Prop
+  | key {kt h : List Char} (hk : isSafeStr kt = true) (hh : ValHead h) : MapStart (kt ++ ':' :: h)
+  | question {h : List Char} (hh : ItemHead h) : MapStart ('?' :: ' ' :: h)
+
+theorem MapStart.notSkippable {t : List Char} (h : MapStart t) (i : Nat) : (⟨i, t⟩ : Line).isSkippable = false := by
+  cases h with
+  | key hk hh => exact key_line_notSkippable hk i _
+  | question hh => exact notSkippable_of_head (by decide)
+
+theorem MapStart.notDash {t : List Char} (h : MapStart t) : ∀ it g, classify t ≠ .dash it g := by
+  intro it g
+  cases h with
+  | key hk hh => rw [classify_key hk]; exact fun e => Head.noConfusion e
+  | question hh => rw [classify_question hh]; exact fun e => Head.noConfusion e
+
+theorem blockNode_mapStart (fuel n : Nat) (seqAt : Option Nat) (i : Nat) {t : List Char} (ls : List Line)
+    (ht : MapStart t) (hi : n ≤ i) :
+    blockNode (fuel + 1) n seqAt false (⟨i, t⟩ :: ls) =
+      (match blockMap fuel i (⟨i, t⟩ :: ls) with
+       | some (es, r) => if hasDupKey es then none else some (.map es, r)
+       | none => none) := by
+  cases ht with
+  | key hk hh => exact blockNode_key fuel n seqAt i ls hk hh hi
+  | question hh => exact blockNode_question fuel n seqAt i ls hh hi
+
+/-- the lines of a non-empty block mapping of the fragment start with a mapping line at its column -/
+theorem layEntries_start {w : Nat} (k : Nat) (cp : Bool) (c : Nat) (lvb : Bool) {e : SVal × SVal} {es : List (SVal × SVal)}
+    (hv : inFragEntries w (e :: es) = true) :
+    ∃ t ls, (layEntries k cp c lvb (e :: es)).1 = ⟨c, t⟩ :: ls ∧ MapStart t := by
+  obtain ⟨kk, v⟩ := e
+  simp only [inFragEntries, Bool.and_eq_true, Bool.or_eq_true] at hv
+  rcases hv.1.1 with hsk | hck
+  · obtain ⟨kt, rfl, hkt⟩ := isSafeKey_iff hsk
+    refine ⟨kt ++ ':' :: (layVal k cp true c lvb v).1,
+      (layVal k cp true c lvb v).2.1 ++ (layEntries k cp c (layVal k cp true c lvb v).2.2 es).1, ?_,
+      MapStart.key hkt (valHead_layVal k cp true v hv.1.2 c lvb)⟩
+    simp [layEntries, keyOf]
+  · refine ⟨'?' :: ' ' :: (layItem k cp c lvb kk).1,
+      (layItem k cp c lvb kk).2.1 ++ ⟨c, [':', ' '] ++ (layItem k cp c false v).1⟩ :: (layItem k cp c false v).2.1 ++
+        (layEntries k cp c (layItem k cp c false v).2.2 es).1, ?_, MapStart.question (itemHead_layItem k cp kk hck.2 c lvb)⟩
+    simp [layEntries, keyOf_complex' kk hck.1]
+
+/-- what follows a value inside a mapping at column `c`: the next entries, then `rest` -/
+theorem entries_rest_end {w : Nat} (k : Nat) (cp : Bool) (c : Nat) (lvb : Bool) {es : List (SVal × SVal)} (hes : inFragEntries w es = true)
+    {rest : List Line} (hd : DedLt c rest) : SeqEnd c ((layEntries k cp c lvb es).1 ++ rest) := by
+  cases es with
+  | nil => simpa [layEntries] using hd.seqEnd
+  | cons p ps =>
+    obtain ⟨t, ls, he, ht⟩ := layEntries_start k cp c lvb hes
+    rw [he]
+    exact Or.inr ⟨_, _, rfl, ht.notSkippable c, Or.inr ⟨rfl, ht.notDash⟩⟩
+
+/-- a mapping right after `key:` -/
+theorem reads_mapVal {w k : Nat} {cp : Bool} (hk : k ≥ 1) {es : List (SVal × SVal)} (hv : inFragEntries w es = true)
+    (hdup : hasDupKey (eraseEntries es) = false) (hentries : ReadsEntries k cp es) :
+    ReadsVal (fun c _ lvb => mapValOf (c + k) lvb es.isEmpty (layEntries k cp (c + k) false es).1) (.map (eraseEntries es)) := by
+  intro fuel c im lvb klen rest hfuel hd
+  cases es with
+  | nil =>
+    obtain ⟨f', rfl⟩ : ∃ f', fuel = f' + 1 := ⟨fuel - 1, by omega⟩
+    cases lvb
+    · simpa [mapValOf, eraseEntries] using valueParse_emptyMap f' c klen rest
+    · simp only [mapValOf, List.isEmpty_nil, if_true, eraseEntries, valueParse_block, List.cons_append, List.nil_append]
+      exact blockNode_emptyMap f' (c + 1) _ false (c + k) rest (by omega)
+  | cons e es' =>
+    obtain ⟨t, ls, he, ht⟩ := layEntries_start k cp (c + k) false (e := e) (es := es') hv
+    simp only [mapValOf, List.isEmpty_cons, Bool.false_eq_true, if_false, valueParse_block] at hfuel ⊢
+    obtain ⟨f', rfl⟩ : ∃ f', fuel = f' + 1 := ⟨fuel - 1, by omega⟩
+    have hi := hentries f' (c + k) false rest
+      (by simp only [List.length_nil] at hfuel; omega) (hd.ded.mono (by omega))
+    rw [he] at hi ⊢
+    simp only [List.cons_append] at hi ⊢
+    rw [blockNode_mapStart f' (c + 1) _ (c + k) _ ht (by omega), hi]
+    simp [hdup]
+
+/-- a mapping right after `- ` -/
+theorem reads_mapItem {w k : Nat} {cp : Bool} {es : List (SVal × SVal)} (hv : inFragEntries w es = true)
+    (hdup : hasDupKey (eraseEntries es) = false) (hentries : ReadsEntries k cp es) :
+    ReadsItem (fun c lvb => layMapItem k cp c lvb es) (.map (eraseEntries es)) := by
+  intro fuel c seqAt lvb rest hfuel hd
+  cases es with
+  | nil =>
+    obtain ⟨f', rfl⟩ : ∃ f', fuel = f' + 1 := ⟨fuel - 1, by omega⟩
+    simpa [layMapItem, eraseEntries] using blockNode_emptyMap f' (c + 1) seqAt false (c + 2) rest (by omega)
+  | cons e es' =>
+    -- the item text + lines are the entries at column `c + 2`, whose first line is the item text
+    have hlay : ∀ (lvb : Bool), (layEntries k cp (c + 2) false (e :: es')).1 =
+        ⟨c + 2, (layMapItem k cp c lvb (e :: es')).1⟩ :: (layMapItem k cp c lvb (e :: es')).2.1 := by
+      intro lvb
+      obtain ⟨kk, v⟩ := e
+      cases hko : keyOf kk <;> simp [layEntries, layMapItem, hko]
+    obtain ⟨t, ls, he, ht⟩ := layEntries_start k cp (c + 2) false (e := e) (es := es') hv
+    have ht' : MapStart (layMapItem k cp c lvb (e :: es')).1 := by
+      have := hlay lvb; rw [he] at this
+      simp only [List.cons.injEq, Line.mk.injEq, true_and] at this
+      rw [← this.1]; exact ht
+    obtain ⟨f', rfl⟩ : ∃ f', fuel = f' + 1 := ⟨fuel - 1, by omega⟩
+    have hi := hentries f' (c + 2) false rest
+      (by rw [hlay lvb]; simp only [mu] at hfuel ⊢; omega) (hd.mono (by omega))
+    rw [hlay lvb] at hi
+    simp only [List.cons_append] at hi ⊢
+    rw [blockNode_mapStart f' (c + 1) seqAt (c + 2) _ ht' (by omega), hi]
+    simp [hdup]
+
+theorem reads_entries_nil {k : Nat} {cp : Bool} : ReadsEntries k cp [] := by
+  intro fuel c lvb rest hfuel hd
+  obtain ⟨f', rfl⟩ : ∃ f', fuel = f' + 1 := ⟨fuel - 1, by omega⟩
+  simpa [layEntries, eraseEntries] using blockMap_end f' c hd
+
+theorem reads_entries_cons {w k : Nat} {cp : Bool} {kt : List Char} {v : SVal} {es : List (SVal × SVal)}
+    (hk : isSafeStr kt = true) (hvv : inFrag w v = true) (hes : inFragEntries w es = true)
+    (h1 : ReadsVal (fun c im lvb => layVal k cp im c lvb v) (erase v)) (h2 : ReadsEntries k cp es) :
+    ReadsEntries k cp ((.str kt, v) :: es) := by
+  intro fuel c lvb rest hfuel hd
+  have hh := valHead_layVal k cp true v hvv c lvb
+  simp only [layEntries, keyOf, mu, mu_append, List.length_append, List.length_cons, List.length_nil] at hfuel
+  obtain ⟨f', rfl⟩ : ∃ f', fuel = f' + 1 := ⟨fuel - 1, by omega⟩
+  have hrest := entries_rest_end k cp c (layVal k cp true c lvb v).2.2 hes hd
+  have h1 := h1 f' c true lvb (kt.length + 1) ((layEntries k cp c (layVal k cp true c lvb v).2.2 es).1 ++ rest) (by dsimp only; omega) hrest
+  have h2 := h2 f' c (layVal k cp true c lvb v).2.2 rest (by omega) hd
+  simp only [layEntries, keyOf, List.cons_append, List.append_assoc, List.singleton_append, List.nil_append, eraseEntries, erase]
+  try simp only [List.append_assoc] at h1
+  rw [blockMap_cons f' c _ hk hh]
+  simp only [h1, h2]
+  rfl
+
+/-- an entry with a composite key: `? key` / `: value` -/
+theorem reads_entries_cons_complex {w k : Nat} {cp : Bool} {key v : SVal} {es : List (SVal × SVal)}
+    (hkc : isComplexKey key = true) (hkk : inFrag w key = true) (hvv : inFrag w v = true) (hes : inFragEntries w es = true)
+    (h0 : ReadsItem (fun c lvb => layItem k cp c lvb key) (erase key))
+    (h1 : ReadsItem (fun c lvb => layItem k cp c lvb v) (erase v)) (h2 : ReadsEntries k cp es) :
+    ReadsEntries k cp ((key, v) :: es) := by
+  intro fuel c lvb rest hfuel hd
+  have hhk := itemHead_layItem k cp key hkk c lvb
+  have hhv := itemHead_layItem k cp v hvv c false
+  simp only [layEntries, keyOf_complex' key hkc, mu, mu_append, List.length_append, List.length_cons, List.length_nil] at hfuel
+  obtain ⟨f', rfl⟩ : ∃ f', fuel = f' + 1 := ⟨fuel - 1, by omega⟩
+  have hrest := (entries_rest_end k cp c (layItem k cp c false v).2.2 hes hd).ded
+  -- the key: everything up to the `: ` line
+  have hk0 := h0 f' c none lvb
+    (⟨c, ':' :: ' ' :: (layItem k cp c false v).1⟩ :: (layItem k cp c false v).2.1 ++ (layEntries k cp c (layItem k cp c false v).2.2 es).1 ++ rest)
+    (by dsimp only; omega) (DedLt.cons _ _ (by simp) (notSkippable_of_head (by decide)))
+  have hv0 := h1 f' c (some c) false ((layEntries k cp c (layItem k cp c false v).2.2 es).1 ++ rest) (by dsimp only; omega) hrest
+  have h2 := h2 f' c (layItem k cp c false v).2.2 rest (by omega) hd
+  simp only [layEntries, keyOf_complex' key hkc, List.cons_append, List.append_assoc, List.singleton_append, List.nil_append,
+    eraseEntries]
+  simp only [List.cons_append, List.append_assoc] at hk0 hv0
+  rw [blockMap_cons_complex f' c _ _ hhk hhv hk0]
+  simp only [hv0, h2]
+  rfl
+
+/-! ### variants -/
+
+/-- `Variant: payload` right after `key:` (the variant key `k` columns under the parent keys) -/
+theorem reads_variantVal {k : Nat} (hk : k ≥ 1) {n : List Char} (hn : isSafeStr n = true) {r : Nat → Bool → Bool → List Char × List Line × Bool}
+    {p : PVal} (hh : ∀ c im lvb, ValHead (r c im lvb).1) (hr : ReadsVal r p) :
+    ReadsVal (fun c _ lvb => variantVal (c + k) n (r (c + k) true lvb)) (.map [(.str n, p)]) := by
+  intro fuel c im lvb klen rest hfuel hd
+  have hh' := hh (c + k) true lvb
+  simp only [variantVal, valueParse_block, List.cons_append, mu, List.length_nil, List.length_append,
+    List.length_cons] at hfuel ⊢
+  obtain ⟨f', rfl⟩ : ∃ f', fuel = f' + 2 := ⟨fuel - 2, by omega⟩
+  have ih := hr f' (c + k) true lvb (n.length + 1) rest (by omega) (hd.mono (by omega))
+  rw [show n ++ [':'] ++ (r (c + k) true lvb).1 = n ++ ':' :: (r (c + k) true lvb).1 by simp]
+  rw [blockNode_key (f' + 1) (c + 1) _ (c + k) _ hn hh' (by omega),
+    blockMap_cons f' (c + k) _ hn hh', ih]
+  obtain ⟨f'', rfl⟩ : ∃ f'', f' = f'' + 1 := ⟨f' - 1, by omega⟩
+  simp [blockMap_end f'' (c + k) (hd.ded.mono (by omega)), hasDupKey]
+
+/-- `Variant: payload` right after `- ` (the variant key two columns after the dash) -/
+theorem reads_variantItem {n : List Char} (hn : isSafeStr n = true) {r : Nat → Bool → Bool → List Char × List Line × Bool}
+    {p : PVal} (hh : ∀ c im lvb, ValHead (r c im lvb).1) (hr : ReadsVal r p) :
+    ReadsItem (fun c lvb => variantItem n (r (c + 2) true lvb)) (.map [(.str n, p)]) := by
+  intro fuel c seqAt lvb rest hfuel hd
+  have hh' := hh (c + 2) true lvb
+  simp only [variantItem, List.length_append, List.length_cons, List.length_nil, List.cons_append] at hfuel ⊢
+  obtain ⟨f', rfl⟩ : ∃ f', fuel = f' + 2 := ⟨fuel - 2, by omega⟩
+  have ih := hr f' (c + 2) true lvb (n.length + 1) rest (by omega) (hd.mono (by omega)).seqEnd
+  rw [show n ++ [':'] ++ (r (c + 2) true lvb).1 = n ++ ':' :: (r (c + 2) true lvb).1 by simp]
+  rw [show f' + 2 = f' + 1 + 1 from rfl, blockNode_key (f' + 1) (c + 1) seqAt (c + 2) _ hn hh' (by omega),
+    blockMap_cons f' (c + 2) _ hn hh', ih]
+  obtain ⟨f'', rfl⟩ : ∃ f'', f' = f'' + 1 := ⟨f' - 1, by omega⟩
+  simp [blockMap_end f'' (c + 2) (hd.mono (by omega)), hasDupKey]
+
+/-! ### the reader theorem -/
 
 mutual
 /-- the value of a key: text after `key:` plus the following lines -/
-theorem read_val {w : Nat} : ∀ (v : SVal), inFrag w v = true → ∀ (fuel m : Nat) (lvb : Bool) (klen : Nat) (rest : List Line),
-    fuel ≥ 2 * ((layVal m lvb v).1.length + 1 + mu (layVal m lvb v).2.1) + 2 → DedLt (col m + 1) rest →
-    valueParse fuel (col m) klen (layVal m lvb v).1 ((layVal m lvb v).2.1 ++ rest) = some (erase v, rest)
-  | .unit, hv, fuel, m, lvb, klen, rest, hfuel, hd => by
-    have ht : PlainTok ("null".toList) := plainTok_null
-    obtain ⟨f', rfl⟩ : ∃ f', fuel = f' + 1 := ⟨fuel - 1, by omega⟩
-    simpa [layVal, erase, resolvePlain_null] using valueParse_leaf f' (col m) klen rest ht hd
-  | .none, hv, fuel, m, lvb, klen, rest, hfuel, hd => by
-    have ht : PlainTok ("null".toList) := plainTok_null
-    obtain ⟨f', rfl⟩ : ∃ f', fuel = f' + 1 := ⟨fuel - 1, by omega⟩
-    simpa [layVal, erase, resolvePlain_null] using valueParse_leaf f' (col m) klen rest ht hd
-  | .bool b, hv, fuel, m, lvb, klen, rest, hfuel, hd => by
-    obtain ⟨f', rfl⟩ : ∃ f', fuel = f' + 1 := ⟨fuel - 1, by omega⟩
+theorem read_val {w k : Nat} {cp : Bool} (hk : k ≥ 1) : ∀ (v : SVal), inFrag w v = true → ReadsVal (fun c im lvb => layVal k cp im c lvb v) (erase v)
+  | .unit, _ => by simpa [layVal, erase, resolvePlain_null] using reads_leaf_val plainTok_null
+  | .none, _ => by simpa [layVal, erase, resolvePlain_null] using reads_leaf_val plainTok_null
+  | .bool b, _ => by
     cases b
-    · simpa [layVal, erase, resolvePlain_false] using valueParse_leaf f' (col m) klen rest plainTok_false hd
-    · simpa [layVal, erase, resolvePlain_true] using valueParse_leaf f' (col m) klen rest plainTok_true hd
-  | .int i, hv, fuel, m, lvb, klen, rest, hfuel, hd => by
-    have ht : PlainTok (intText i) := intText_plainTok i
-    obtain ⟨f', rfl⟩ : ∃ f', fuel = f' + 1 := ⟨fuel - 1, by omega⟩
-    simpa [layVal, erase, resolvePlain_int] using valueParse_leaf f' (col m) klen rest ht hd
-  | .str t, hv, fuel, m, lvb, klen, rest, hfuel, hd => by
+    · simpa [layVal, erase, resolvePlain_false] using reads_leaf_val plainTok_false
+    · simpa [layVal, erase, resolvePlain_true] using reads_leaf_val plainTok_true
+  | .int i, _ => by simpa [layVal, erase, resolvePlain_int] using reads_leaf_val (intText_plainTok i)
+  | .str t, hv => by
     simp only [inFrag, Bool.and_eq_true] at hv
-    have ht : PlainTok (t) := safe_plainTok hv.1
-    obtain ⟨f', rfl⟩ : ∃ f', fuel = f' + 1 := ⟨fuel - 1, by omega⟩
-    simpa [layVal, erase, resolvePlain_safe hv.1] using valueParse_leaf f' (col m) klen rest ht hd
-  | .unitVariant e n, hv, fuel, m, lvb, klen, rest, hfuel, hd => by
+    simpa [layVal, erase, resolvePlain_safe hv.1] using reads_leaf_val (safe_plainTok hv.1)
+  | .unitVariant e n, hv => by
     simp only [inFrag, Bool.and_eq_true] at hv
-    have ht : PlainTok (n) := safe_plainTok hv.1
-    obtain ⟨f', rfl⟩ : ∃ f', fuel = f' + 1 := ⟨fuel - 1, by omega⟩
-    simpa [layVal, erase, resolvePlain_safe hv.1] using valueParse_leaf f' (col m) klen rest ht hd
-  | .some v, hv, fuel, m, lvb, klen, rest, hfuel, hd => by
+    simpa [layVal, erase, resolvePlain_safe hv.1] using reads_leaf_val (safe_plainTok hv.1)
+  | .some v, hv => by
     simp only [inFrag] at hv
-    simpa [layVal, erase] using read_val v hv fuel m lvb klen rest (by simpa [layVal] using hfuel) hd
-  | .newtypeStruct v, hv, fuel, m, lvb, klen, rest, hfuel, hd => by
+    simpa [layVal, erase] using read_val hk v hv
+  | .newtypeStruct v, hv => by
     simp only [inFrag] at hv
-    simpa [layVal, erase] using read_val v hv fuel m lvb klen rest (by simpa [layVal] using hfuel) hd
-  | .newtypeVariant n v, hv, fuel, m, lvb, klen, rest, hfuel, hd => by
-    simp only [inFrag, Bool.and_eq_true] at hv
-    have hh := valHead_layVal v hv.2 (m + 1) lvb
-    have hcol : col (m + 1) = col m + 2 := by simp [col]; omega
-    simp only [layVal, valueParse_block, erase, List.cons_append, mu, List.length_nil, List.length_append,
-      List.length_cons] at hfuel ⊢
-    obtain ⟨f', rfl⟩ : ∃ f', fuel = f' + 2 := ⟨fuel - 2, by omega⟩
-    have ih := read_val v hv.2 f' (m + 1) lvb (n.length + 1) rest (by omega) (hd.mono (by omega))
-    rw [show n ++ [':'] ++ (layVal (m + 1) lvb v).1 = n ++ ':' :: (layVal (m + 1) lvb v).1 by simp]
-    rw [blockNode_key (f' + 1) (col m + 1) _ (col (m + 1)) _ hv.1 hh (by omega),
-      blockMap_cons f' (col (m + 1)) _ hv.1 hh, ih]
-    obtain ⟨f'', rfl⟩ : ∃ f'', f' = f'' + 1 := ⟨f' - 1, by omega⟩
-    simp [blockMap_end f'' (col (m + 1)) (hd.mono (by omega)), hasDupKey]
-  | .seq xs, hv, fuel, m, lvb, klen, rest, hfuel, hd => by
+    simpa [layVal, erase] using read_val hk v hv
+  | .seq xs, hv => by
     simp only [inFrag] at hv
-    cases xs with
-    | nil =>
-      obtain ⟨f', rfl⟩ : ∃ f', fuel = f' + 1 := ⟨fuel - 1, by omega⟩
-      cases lvb
-      · simpa [layVal, seqValOf, erase, eraseList] using valueParse_emptySeq f' (col m) klen rest
-      · simp only [layVal, seqValOf, List.isEmpty_nil, if_true, erase, eraseList, valueParse_block, List.cons_append, List.nil_append]
-        exact blockNode_emptySeq f' (col m + 1) _ false (col (m + 1)) rest (by simp [col]; omega)
-    | cons x xs' =>
-      have hx : inFrag w x = true := by simp only [inFragList, Bool.and_eq_true] at hv; exact hv.1
-      have hh := itemHead_layItem x hx (m + 1) false
-      have hcol : col (m + 1) = col m + 2 := by simp [col]; omega
-      simp only [layVal, seqValOf, List.isEmpty_cons, Bool.false_eq_true, if_false, valueParse_block, erase] at hfuel ⊢
-      obtain ⟨f', rfl⟩ : ∃ f', fuel = f' + 1 := ⟨fuel - 1, by omega⟩
-      have hi := read_items (x :: xs') hv f' (m + 1) false rest (by simp only [List.length_nil] at hfuel; omega)
-        (hd.mono (by omega))
-      simp only [layItems, List.cons_append, List.nil_append, List.append_assoc] at hi ⊢
-      rw [blockNode_dash f' (col m + 1) _ (col (m + 1)) _ hh (by omega), hi]
-      rfl
-  | .tuple xs, hv, fuel, m, lvb, klen, rest, hfuel, hd => by
+    simpa [layVal, erase] using reads_seqVal hk hv (read_items hk xs hv)
+  | .tuple xs, hv => by
     simp only [inFrag] at hv
-    cases xs with
-    | nil =>
-      obtain ⟨f', rfl⟩ : ∃ f', fuel = f' + 1 := ⟨fuel - 1, by omega⟩
-      cases lvb
-      · simpa [layVal, seqValOf, erase, eraseList] using valueParse_emptySeq f' (col m) klen rest
-      · simp only [layVal, seqValOf, List.isEmpty_nil, if_true, erase, eraseList, valueParse_block, List.cons_append, List.nil_append]
-        exact blockNode_emptySeq f' (col m + 1) _ false (col (m + 1)) rest (by simp [col]; omega)
-    | cons x xs' =>
-      have hx : inFrag w x = true := by simp only [inFragList, Bool.and_eq_true] at hv; exact hv.1
-      have hh := itemHead_layItem x hx (m + 1) false
-      have hcol : col (m + 1) = col m + 2 := by simp [col]; omega
-      simp only [layVal, seqValOf, List.isEmpty_cons, Bool.false_eq_true, if_false, valueParse_block, erase] at hfuel ⊢
-      obtain ⟨f', rfl⟩ : ∃ f', fuel = f' + 1 := ⟨fuel - 1, by omega⟩
-      have hi := read_items (x :: xs') hv f' (m + 1) false rest (by simp only [List.length_nil] at hfuel; omega)
-        (hd.mono (by omega))
-      simp only [layItems, List.cons_append, List.nil_append, List.append_assoc] at hi ⊢
-      rw [blockNode_dash f' (col m + 1) _ (col (m + 1)) _ hh (by omega), hi]
-      rfl
-  | .map known es, hv, fuel, m, lvb, klen, rest, hfuel, hd => by
+    simpa [layVal, erase] using reads_seqVal hk hv (read_items hk xs hv)
+  | .tupleStruct xs, hv => by
+    simp only [inFrag] at hv
+    simpa [layVal, erase] using reads_seqVal hk hv (read_items hk xs hv)
+  | .map known es, hv => by
     simp only [inFrag, Bool.and_eq_true, decide_eq_true_eq] at hv
-    cases es with
-    | nil =>
-      obtain ⟨f', rfl⟩ : ∃ f', fuel = f' + 1 := ⟨fuel - 1, by omega⟩
-      cases lvb
-      · simpa [layVal, erase, eraseEntries] using valueParse_emptyMap f' (col m) klen rest
-      · simp only [layVal, List.isEmpty_nil, if_true, erase, eraseEntries, valueParse_block, List.cons_append, List.nil_append]
-        exact blockNode_emptyMap f' (col m + 1) _ false (col (m + 1)) rest (by simp [col]; omega)
-    | cons e es' =>
-      obtain ⟨k, v⟩ := e
-      have hdup := hasDupKey_erase ((k, v) :: es') hv.1 hv.2
-      have hent := hv.1
-      cases k <;> simp only [inFragEntries, Bool.and_eq_true, Bool.false_and, Bool.false_eq_true, false_and] at hent
-      rename_i kt
-      have hh := valHead_layVal v hent.1.2 (m + 1) false
-      have hcol : col (m + 1) = col m + 2 := by simp [col]; omega
-      simp only [layVal, List.isEmpty_cons, Bool.false_eq_true, if_false, valueParse_block, erase] at hfuel ⊢
-      obtain ⟨f', rfl⟩ : ∃ f', fuel = f' + 1 := ⟨fuel - 1, by omega⟩
-      have hi := read_entries ((SVal.str kt, v) :: es') hv.1 f' (m + 1) false rest
-        (by simp only [List.length_nil] at hfuel; omega) (hd.mono (by omega))
-      simp only [layEntries, keyOf, Option.getD_some, List.cons_append, List.append_assoc, List.singleton_append, List.nil_append] at hi ⊢
-      rw [blockNode_key f' (col m + 1) _ (col (m + 1)) _ hent.1.1 hh (by omega), hi]
-      simp [hdup]
-  | .tupleStruct _, hv, _, _, _, _, _, _, _ => by simp [inFrag] at hv
-  | .tupleVariant _ _, hv, _, _, _, _, _, _, _ => by simp [inFrag] at hv
-  | .structVariant _ _, hv, _, _, _, _, _, _, _ => by simp [inFrag] at hv
-  | .flowSeq _, hv, _, _, _, _, _, _, _ => by simp [inFrag] at hv
-  | .flowMap _, hv, _, _, _, _, _, _, _ => by simp [inFrag] at hv
-  | .commented _ _, hv, _, _, _, _, _, _, _ => by simp [inFrag] at hv
-  | .spaceAfter _, hv, _, _, _, _, _, _, _ => by simp [inFrag] at hv
-  | .litStr _, hv, _, _, _, _, _, _, _ => by simp [inFrag] at hv
-  | .foldStr _, hv, _, _, _, _, _, _, _ => by simp [inFrag] at hv
+    simpa [layVal, erase] using reads_mapVal hk hv.1 (by simpa using hv.2) (read_entries hk es hv.1)
+  | .newtypeVariant n v, hv => by
+    simp only [inFrag, Bool.and_eq_true] at hv
+    simpa [layVal, erase] using reads_variantVal hk hv.1 (r := fun c im lvb => layVal k cp im c lvb v)
+      (fun c im lvb => valHead_layVal k cp im v hv.2 c lvb) (read_val hk v hv.2)
+  | .tupleVariant n xs, hv => by
+    simp only [inFrag, Bool.and_eq_true] at hv
+    simpa [layVal, erase] using reads_variantVal hk hv.1 (r := fun c im _ => seqValOf xs.isEmpty (layItems k cp (seqCol k cp im c) false xs).1)
+      (fun _ _ _ => seqValOf_head _ _) (reads_seqVal hk hv.2 (read_items hk xs hv.2))
+  | .structVariant n fs, hv => by
+    simp only [inFrag, Bool.and_eq_true, decide_eq_true_eq] at hv
+    simpa [layVal, erase] using reads_variantVal hk hv.1
+      (r := fun c _ lvb => mapValOf (c + k) lvb fs.isEmpty (layEntries k cp (c + k) false fs).1)
+      (fun _ _ _ => mapValOf_head _ _ _ _) (reads_mapVal hk hv.2.1 (by simpa using hv.2.2) (read_entries hk fs hv.2.1))
+  | .flowSeq _, hv => by simp [inFrag] at hv
+  | .flowMap _, hv => by simp [inFrag] at hv
+  | .commented _ _, hv => by simp [inFrag] at hv
+  | .spaceAfter _, hv => by simp [inFrag] at hv
+  | .litStr _, hv => by simp [inFrag] at hv
+  | .foldStr _, hv => by simp [inFrag] at hv
 /-- an item of a sequence: text after `- ` plus the following lines -/
-theorem read_item {w : Nat} : ∀ (v : SVal), inFrag w v = true → ∀ (fuel d : Nat) (lvb : Bool) (rest : List Line),
-    fuel ≥ 2 * ((layItem d lvb v).1.length + 1 + mu (layItem d lvb v).2.1) + 2 → DedLt (col d + 1) rest →
-    blockNode fuel (col d + 1) none false (⟨col d + 2, (layItem d lvb v).1⟩ :: (layItem d lvb v).2.1 ++ rest) = some (erase v, rest)
-  | .unit, hv, fuel, d, lvb, rest, hfuel, hd => by
-    have ht : PlainTok ("null".toList) := plainTok_null
-    obtain ⟨f', rfl⟩ : ∃ f', fuel = f' + 1 := ⟨fuel - 1, by omega⟩
-    simpa [layItem, erase, resolvePlain_null] using blockNode_plain f' (col d + 1) none false (col d + 2) rest ht (by omega) hd
-  | .none, hv, fuel, d, lvb, rest, hfuel, hd => by
-    have ht : PlainTok ("null".toList) := plainTok_null
-    obtain ⟨f', rfl⟩ : ∃ f', fuel = f' + 1 := ⟨fuel - 1, by omega⟩
-    simpa [layItem, erase, resolvePlain_null] using blockNode_plain f' (col d + 1) none false (col d + 2) rest ht (by omega) hd
-  | .bool b, hv, fuel, d, lvb, rest, hfuel, hd => by
-    obtain ⟨f', rfl⟩ : ∃ f', fuel = f' + 1 := ⟨fuel - 1, by omega⟩
+theorem read_item {w k : Nat} {cp : Bool} (hk : k ≥ 1) : ∀ (v : SVal), inFrag w v = true → ReadsItem (fun c lvb => layItem k cp c lvb v) (erase v)
+  | .unit, _ => by simpa [layItem, erase, resolvePlain_null] using reads_leaf_item plainTok_null
+  | .none, _ => by simpa [layItem, erase, resolvePlain_null] using reads_leaf_item plainTok_null
+  | .bool b, _ => by
     cases b
-    · simpa [layItem, erase, resolvePlain_false] using blockNode_plain f' (col d + 1) none false (col d + 2) rest plainTok_false (by omega) hd
-    · simpa [layItem, erase, resolvePlain_true] using blockNode_plain f' (col d + 1) none false (col d + 2) rest plainTok_true (by omega) hd
-  | .int i, hv, fuel, d, lvb, rest, hfuel, hd => by
-    have ht : PlainTok (intText i) := intText_plainTok i
-    obtain ⟨f', rfl⟩ : ∃ f', fuel = f' + 1 := ⟨fuel - 1, by omega⟩
-    simpa [layItem, erase, resolvePlain_int] using blockNode_plain f' (col d + 1) none false (col d + 2) rest ht (by omega) hd
-  | .str t, hv, fuel, d, lvb, rest, hfuel, hd => by
+    · simpa [layItem, erase, resolvePlain_false] using reads_leaf_item plainTok_false
+    · simpa [layItem, erase, resolvePlain_true] using reads_leaf_item plainTok_true
+  | .int i, _ => by simpa [layItem, erase, resolvePlain_int] using reads_leaf_item (intText_plainTok i)
+  | .str t, hv => by
     simp only [inFrag, Bool.and_eq_true] at hv
-    have ht : PlainTok (t) := safe_plainTok hv.1
-    obtain ⟨f', rfl⟩ : ∃ f', fuel = f' + 1 := ⟨fuel - 1, by omega⟩
-    simpa [layItem, erase, resolvePlain_safe hv.1] using blockNode_plain f' (col d + 1) none false (col d + 2) rest ht (by omega) hd
-  | .unitVariant e n, hv, fuel, d, lvb, rest, hfuel, hd => by
+    simpa [layItem, erase, resolvePlain_safe hv.1] using reads_leaf_item (safe_plainTok hv.1)
+  | .unitVariant e n, hv => by
     simp only [inFrag, Bool.and_eq_true] at hv
-    have ht : PlainTok (n) := safe_plainTok hv.1
-    obtain ⟨f', rfl⟩ : ∃ f', fuel = f' + 1 := ⟨fuel - 1, by omega⟩
-    simpa [layItem, erase, resolvePlain_safe hv.1] using blockNode_plain f' (col d + 1) none false (col d + 2) rest ht (by omega) hd
-  | .some v, hv, fuel, d, lvb, rest, hfuel, hd => by
+    simpa [layItem, erase, resolvePlain_safe hv.1] using reads_leaf_item (safe_plainTok hv.1)
+  | .some v, hv => by
     simp only [inFrag] at hv
-    simpa [layItem, erase] using read_item v hv fuel d lvb rest (by simpa [layItem] using hfuel) hd
-  | .newtypeStruct v, hv, fuel, d, lvb, rest, hfuel, hd => by
+    simpa [layItem, erase] using read_item hk v hv
+  | .newtypeStruct v, hv => by
     simp only [inFrag] at hv
-    simpa [layItem, erase] using read_item v hv fuel d lvb rest (by simpa [layItem] using hfuel) hd
-  | .newtypeVariant n v, hv, fuel, d, lvb, rest, hfuel, hd => by
-    simp only [inFrag, Bool.and_eq_true] at hv
-    have hh := valHead_layVal v hv.2 (d + 1) lvb
-    have hcol : col (d + 1) = col d + 2 := by simp [col]; omega
-    simp only [layItem, erase, List.length_append, List.length_cons, List.length_nil, List.cons_append] at hfuel ⊢
-    obtain ⟨f', rfl⟩ : ∃ f', fuel = f' + 2 := ⟨fuel - 2, by omega⟩
-    have ih := read_val v hv.2 f' (d + 1) lvb (n.length + 1) rest (by omega) (hd.mono (by omega))
-    rw [show n ++ [':'] ++ (layVal (d + 1) lvb v).1 = n ++ ':' :: (layVal (d + 1) lvb v).1 by simp]
-    rw [show f' + 2 = f' + 1 + 1 from rfl, blockNode_key (f' + 1) (col d + 1) none (col d + 2) _ hv.1 hh (by omega), ← hcol,
-      blockMap_cons f' (col (d + 1)) _ hv.1 hh, ih]
-    obtain ⟨f'', rfl⟩ : ∃ f'', f' = f'' + 1 := ⟨f' - 1, by omega⟩
-    simp [blockMap_end f'' (col (d + 1)) (hd.mono (by omega)), hasDupKey]
-  | .seq xs, hv, fuel, d, lvb, rest, hfuel, hd => by
+    simpa [layItem, erase] using read_item hk v hv
+  | .seq xs, hv => by
     simp only [inFrag] at hv
-    cases xs with
-    | nil =>
-      obtain ⟨f', rfl⟩ : ∃ f', fuel = f' + 1 := ⟨fuel - 1, by omega⟩
-      simpa [layItem, laySeqItem, erase, eraseList] using blockNode_emptySeq f' (col d + 1) none false (col d + 2) rest (by omega)
-    | cons x xs' =>
-      have hx : inFrag w x = true := by simp only [inFragList, Bool.and_eq_true] at hv; exact hv.1
-      have hh := itemHead_layItem x hx (d + 1) lvb
-      have hcol : col (d + 1) = col d + 2 := by simp [col]; omega
-      simp only [layItem, laySeqItem, erase] at hfuel ⊢
-      obtain ⟨f', rfl⟩ : ∃ f', fuel = f' + 1 := ⟨fuel - 1, by omega⟩
-      have hi := read_items (x :: xs') hv f' (d + 1) lvb rest
-        (by simp only [layItems, mu, mu_append, List.length_append, List.length_cons, List.length_nil] at hfuel ⊢; omega)
-        (hd.mono (by omega))
-      simp only [layItems, List.cons_append, List.nil_append, hcol] at hi
-      simp only [List.cons_append, List.nil_append, List.append_assoc]
-      rw [blockNode_dash f' (col d + 1) none (col d + 2) _ hh (by omega)]
-      try simp only [List.append_assoc] at hi
-      rw [hi]
-      rfl
-  | .tuple xs, hv, fuel, d, lvb, rest, hfuel, hd => by
+    simpa [layItem, erase] using reads_seqItem hv (read_items hk xs hv)
+  | .tuple xs, hv => by
     simp only [inFrag] at hv
-    cases xs with
-    | nil =>
-      obtain ⟨f', rfl⟩ : ∃ f', fuel = f' + 1 := ⟨fuel - 1, by omega⟩
-      simpa [layItem, laySeqItem, erase, eraseList] using blockNode_emptySeq f' (col d + 1) none false (col d + 2) rest (by omega)
-    | cons x xs' =>
-      have hx : inFrag w x = true := by simp only [inFragList, Bool.and_eq_true] at hv; exact hv.1
-      have hh := itemHead_layItem x hx (d + 1) lvb
-      have hcol : col (d + 1) = col d + 2 := by simp [col]; omega
-      simp only [layItem, laySeqItem, erase] at hfuel ⊢
-      obtain ⟨f', rfl⟩ : ∃ f', fuel = f' + 1 := ⟨fuel - 1, by omega⟩
-      have hi := read_items (x :: xs') hv f' (d + 1) lvb rest
-        (by simp only [layItems, mu, mu_append, List.length_append, List.length_cons, List.length_nil] at hfuel ⊢; omega)
-        (hd.mono (by omega))
-      simp only [layItems, List.cons_append, List.nil_append, hcol] at hi
-      simp only [List.cons_append, List.nil_append, List.append_assoc]
-      rw [blockNode_dash f' (col d + 1) none (col d + 2) _ hh (by omega)]
-      try simp only [List.append_assoc] at hi
-      rw [hi]
-      rfl
-  | .map known es, hv, fuel, d, lvb, rest, hfuel, hd => by
+    simpa [layItem, erase] using reads_seqItem hv (read_items hk xs hv)
+  | .tupleStruct xs, hv => by
+    simp only [inFrag] at hv
+    simpa [layItem, erase] using reads_seqItem hv (read_items hk xs hv)
+  | .map known es, hv => by
     simp only [inFrag, Bool.and_eq_true, decide_eq_true_eq] at hv
-    cases es with
-    | nil =>
-      obtain ⟨f', rfl⟩ : ∃ f', fuel = f' + 1 := ⟨fuel - 1, by omega⟩
-      simpa [layItem, layMapItem, erase, eraseEntries] using blockNode_emptyMap f' (col d + 1) none false (col d + 2) rest (by omega)
-    | cons e es' =>
-      obtain ⟨k, v⟩ := e
-      have hdup := hasDupKey_erase ((k, v) :: es') hv.1 hv.2
-      have hent := hv.1
-      cases k <;> simp only [inFragEntries, Bool.and_eq_true, Bool.false_and, Bool.false_eq_true, false_and] at hent
-      rename_i kt
-      have hh := valHead_layVal v hent.1.2 (d + 1) false
-      have hcol : col (d + 1) = col d + 2 := by simp [col]; omega
-      simp only [layItem, layMapItem, keyOf, Option.getD_some, erase] at hfuel ⊢
-      obtain ⟨f', rfl⟩ : ∃ f', fuel = f' + 1 := ⟨fuel - 1, by omega⟩
-      have hi := read_entries ((SVal.str kt, v) :: es') hv.1 f' (d + 1) false rest
-        (by simp only [layEntries, keyOf, Option.getD_some, mu, mu_append, List.length_append, List.length_cons, List.length_nil] at hfuel ⊢; omega)
-        (hd.mono (by omega))
-      simp only [layEntries, keyOf, Option.getD_some, List.cons_append, List.append_assoc, List.singleton_append, List.nil_append, hcol] at hi
-      simp only [List.cons_append, List.nil_append, List.append_assoc, List.singleton_append]
-      rw [blockNode_key f' (col d + 1) none (col d + 2) _ hent.1.1 hh (by omega), hi]
-      simp [hdup]
-  | .tupleStruct _, hv, _, _, _, _, _, _ => by simp [inFrag] at hv
-  | .tupleVariant _ _, hv, _, _, _, _, _, _ => by simp [inFrag] at hv
-  | .structVariant _ _, hv, _, _, _, _, _, _ => by simp [inFrag] at hv
-  | .flowSeq _, hv, _, _, _, _, _, _ => by simp [inFrag] at hv
-  | .flowMap _, hv, _, _, _, _, _, _ => by simp [inFrag] at hv
-  | .commented _ _, hv, _, _, _, _, _, _ => by simp [inFrag] at hv
-  | .spaceAfter _, hv, _, _, _, _, _, _ => by simp [inFrag] at hv
-  | .litStr _, hv, _, _, _, _, _, _ => by simp [inFrag] at hv
-  | .foldStr _, hv, _, _, _, _, _, _ => by simp [inFrag] at hv
+    simpa [layItem, erase] using reads_mapItem hv.1 (by simpa using hv.2) (read_entries hk es hv.1)
+  | .newtypeVariant n v, hv => by
+    simp only [inFrag, Bool.and_eq_true] at hv
+    simpa [layItem, erase] using reads_variantItem hv.1 (r := fun c im lvb => layVal k cp im c lvb v)
+      (fun c im lvb => valHead_layVal k cp im v hv.2 c lvb) (read_val hk v hv.2)
+  | .tupleVariant n xs, hv => by
+    simp only [inFrag, Bool.and_eq_true] at hv
+    simpa [layItem, erase] using reads_variantItem hv.1 (r := fun c im _ => seqValOf xs.isEmpty (layItems k cp (seqCol k cp im c) false xs).1)
+      (fun _ _ _ => seqValOf_head _ _) (reads_seqVal hk hv.2 (read_items hk xs hv.2))
+  | .structVariant n fs, hv => by
+    simp only [inFrag, Bool.and_eq_true, decide_eq_true_eq] at hv
+    simpa [layItem, erase] using reads_variantItem hv.1
+      (r := fun c _ lvb => mapValOf (c + k) lvb fs.isEmpty (layEntries k cp (c + k) false fs).1)
+      (fun _ _ _ => mapValOf_head _ _ _ _) (reads_mapVal hk hv.2.1 (by simpa using hv.2.2) (read_entries hk fs hv.2.1))
+  | .flowSeq _, hv => by simp [inFrag] at hv
+  | .flowMap _, hv => by simp [inFrag] at hv
+  | .commented _ _, hv => by simp [inFrag] at hv
+  | .spaceAfter _, hv => by simp [inFrag] at hv
+  | .litStr _, hv => by simp [inFrag] at hv
+  | .foldStr _, hv => by simp [inFrag] at hv
 /-- the items of a block sequence at depth `d` -/
-theorem read_items {w : Nat} : ∀ (xs : List SVal), inFragList w xs = true → ∀ (fuel d : Nat) (lvb : Bool) (rest : List Line),
-    fuel ≥ 2 * mu (layItems d lvb xs).1 + 1 → DedLt (col d) rest →
-    blockSeq fuel (col d) ((layItems d lvb xs).1 ++ rest) = some (eraseList xs, rest)
-  | [], _, fuel, d, lvb, rest, hfuel, hd => by
-    obtain ⟨f', rfl⟩ : ∃ f', fuel = f' + 1 := ⟨fuel - 1, by omega⟩
-    simpa [layItems, eraseList] using blockSeq_end f' (col d) hd
-  | x :: xs, hv, fuel, d, lvb, rest, hfuel, hd => by
+theorem read_items {w k : Nat} {cp : Bool} (hk : k ≥ 1) : ∀ (xs : List SVal), inFragList w xs = true → ReadsItems k cp xs
+  | [], _ => reads_items_nil
+  | x :: xs, hv => by
     simp only [inFragList, Bool.and_eq_true] at hv
-    have hh := itemHead_layItem x hv.1 d lvb
-    simp only [layItems, mu, mu_append, List.length_append, List.length_cons, List.length_nil] at hfuel
-    obtain ⟨f', rfl⟩ : ∃ f', fuel = f' + 1 := ⟨fuel - 1, by omega⟩
-    have hrest : DedLt (col d + 1) ((layItems d (layItem d lvb x).2.2 xs).1 ++ rest) := by
-      cases xs with
-      | nil => simpa [layItems] using hd.mono (by omega)
-      | cons y ys =>
-        simp only [layItems, List.cons_append]
-        exact DedLt.cons _ _ (by simp) (notSkippable_of_head (by decide))
-    have h1 := read_item x hv.1 f' d lvb ((layItems d (layItem d lvb x).2.2 xs).1 ++ rest) (by omega) hrest
-    have h2 := read_items xs hv.2 f' d (layItem d lvb x).2.2 rest (by omega) hd
-    simp only [layItems, List.cons_append, List.append_assoc, List.singleton_append, List.nil_append, eraseList]
-    simp only [List.cons_append, List.append_assoc] at h1
-    rw [blockSeq_cons f' (col d) _ hh]
-    simp only [h1, h2]
-    rfl
+    exact reads_items_cons hv.1 (read_item hk x hv.1) (read_items hk xs hv.2)
 /-- the entries of a block mapping at depth `m` -/
-theorem read_entries {w : Nat} : ∀ (es : List (SVal × SVal)), inFragEntries w es = true → ∀ (fuel m : Nat) (lvb : Bool) (rest : List Line),
-    fuel ≥ 2 * mu (layEntries m lvb es).1 + 1 → DedLt (col m) rest →
-    blockMap fuel (col m) ((layEntries m lvb es).1 ++ rest) = some (eraseEntries es, rest)
-  | [], _, fuel, m, lvb, rest, hfuel, hd => by
-    obtain ⟨f', rfl⟩ : ∃ f', fuel = f' + 1 := ⟨fuel - 1, by omega⟩
-    simpa [layEntries, eraseEntries] using blockMap_end f' (col m) hd
-  | (k, v) :: es, hv, fuel, m, lvb, rest, hfuel, hd => by
-    cases k <;> simp only [inFragEntries, Bool.and_eq_true, Bool.false_and, Bool.false_eq_true, false_and] at hv
-    rename_i kt
-    have hh := valHead_layVal v hv.1.2 m lvb
-    simp only [layEntries, keyOf, Option.getD_some, mu, mu_append, List.length_append, List.length_cons, List.length_nil] at hfuel
-    obtain ⟨f', rfl⟩ : ∃ f', fuel = f' + 1 := ⟨fuel - 1, by omega⟩
-    have hrest : DedLt (col m + 1) ((layEntries m (layVal m lvb v).2.2 es).1 ++ rest) := by
-      cases es with
-      | nil => simpa [layEntries] using hd.mono (by omega)
-      | cons p ps =>
-        obtain ⟨k', v'⟩ := p
-        have hp := hv.2
-        cases k' <;> simp only [inFragEntries, Bool.and_eq_true, Bool.false_and, Bool.false_eq_true, false_and] at hp
-        rename_i kt'
-        simp only [layEntries, keyOf, Option.getD_some, List.cons_append, List.append_assoc, List.singleton_append]
-        exact DedLt.cons _ _ (by simp) (key_line_notSkippable hp.1.1 _ _)
-    have h1 := read_val v hv.1.2 f' m lvb (kt.length + 1) ((layEntries m (layVal m lvb v).2.2 es).1 ++ rest) (by omega) hrest
-    have h2 := read_entries es hv.2 f' m (layVal m lvb v).2.2 rest (by omega) hd
-    simp only [layEntries, keyOf, Option.getD_some, List.cons_append, List.append_assoc, List.singleton_append, List.nil_append, eraseEntries, erase]
-    try simp only [List.append_assoc] at h1
-    rw [blockMap_cons f' (col m) _ hv.1.1 hh]
-    simp only [h1, h2]
-    rfl
+theorem read_entries {w k : Nat} {cp : Bool} (hk : k ≥ 1) : ∀ (es : List (SVal × SVal)), inFragEntries w es = true → ReadsEntries k cp es
+  | [], _ => reads_entries_nil
+  | (kk, v) :: es, hv => by
+    simp only [inFragEntries, Bool.and_eq_true, Bool.or_eq_true] at hv
+    rcases hv.1.1 with hsk | hck
+    · obtain ⟨kt, rfl, hkt⟩ := isSafeKey_iff hsk
+      exact reads_entries_cons hkt hv.1.2 hv.2 (read_val hk v hv.1.2) (read_entries hk es hv.2)
+    · exact reads_entries_cons_complex hck.1 hck.2 hv.1.2 hv.2 (read_item hk kk hck.2) (read_item hk v hv.1.2)
+        (read_entries hk es hv.2)
 end
 
 end SaphyrVerif.Emit
